@@ -1,6 +1,6 @@
 CONSTANTS
   Clients = {"c1", "c2"}
-  CallIds = {1, 2, 3, 4, 5, 6}
+  CallIds = @IDS@
   OwnerOf <- TOwnerOf
   Take <- TTake
   MaxWorkers = @WORKERS@
